@@ -28,7 +28,15 @@ func init() {
 	})
 	p.Run = func(c *Ctx) {
 		cfg := gen.Cfg{ExprDepth: 2, BodyLen: 4, Nest: 5, Calls: true, If: true, For: true, Set: true, SetCap: true, FilterSec: true, Macros: true, Blocks: true, HostileText: true, BigText: true}
-		sub.Rapid(c, c.Share(c.Pick(20000, 1000000)), progGen(cfg))
+		sub.Rapid(c, c.Share(c.Pick(16000, 800000)), progGen(cfg))
+		// captures across templates of one execution: block bodies wrapped in
+		// filter sections (different filter lists per level) rendered through
+		// inheritance, parent() and block()
+		sub.Rapid(c, c.Share(c.Pick(4000, 200000)), func(t *rapidT) *progCase {
+			ic := gen.GenInherit(t)
+			ic.FilterFirst = true
+			return &progCase{P: gen.BuildInherit(ic)}
+		})
 	}
 	Register(p)
 }
